@@ -28,6 +28,7 @@ def check(ctx: Ctx) -> None:
     r1(ctx)
     r2(ctx)
     r3(ctx)
+    r3b(ctx)
     from .c09 import r1_fresh_names
     r1_fresh_names(ctx, "C01.R4")
     r5(ctx)
@@ -36,6 +37,14 @@ def check(ctx: Ctx) -> None:
     from .c19 import r1 as c19_r1, r5 as c19_r5
     c19_r1(ctx, "C01.R7")
     c19_r5(ctx, "C01.R8")
+    # an ambiguous failure must not be retried as a clean conflict (the same files would be committed twice)
+    from .c04 import r3 as c04_r3
+    n0 = len(ctx.obs)
+    c04_r3(ctx)
+    for o in ctx.obs[n0:]:
+        o.rule = "C01.R9"
+    ctx.rule_text["C01.R9"] = ctx.rule_text.pop("C04.R3")
+    ctx.floors["C01.R9"] = ctx.floors.pop("C04.R3")
 
 
 def commit_fn(ctx: Ctx) -> FunctionInfo:
@@ -297,8 +306,44 @@ def r3(ctx: Ctx) -> None:
                f"{kw} is derived once per attempt from {need}", text=kw)
 
 
-def r5(ctx: Ctx) -> None:
-    ctx.rule("C01.R5", "applied exactly once: begin() resets per-transaction state; the is_active() guard dominates "
+def r3b(ctx: Ctx) -> None:
+    ctx.rule("C01.R3b", "every retry loop around MetadataManager.commit rebuilds BOTH arguments inside the iteration (a retried commit "
+             "never re-sends metadata derived from an earlier, stale base)", 1)
+    cq = commit_fn(ctx).qname
+    n_sites = 0
+    for f in ctx.prog.functions.values():
+        if isinstance(f.node, ast.Lambda):
+            continue
+        g = ctx.cfg(f)
+        rd = ctx.rd(f)
+        for n in g.calls():
+            if not any(t.qname == cq for t in ctx.eff.callees(f, n)):
+                continue
+            n_sites += 1
+            loops = [fr.node for fr in n.frames if fr.kind == "loop"]
+            if not loops:
+                ctx.ob("C01.R3b", f, "commit call site (not in a retry loop)", n, True, "single attempt: nothing can be carried over", nontrivial=False)
+                continue
+            call = n.ast
+            assert isinstance(call, ast.Call)
+            stale = []
+            sl = ctx.slicer(f)
+            for arg in list(call.args) + [k.value for k in call.keywords]:
+                for nm in names_in(arg):
+                    if nm.startswith("self"):
+                        continue
+                    for d in rd.reaching(n.id, nm):
+                        if d == g.entry or not any(fr.kind == "loop" and fr.node in loops for fr in g.nodes[d].frames):
+                            stale.append(f"`{nm}` defined at line {g.nodes[d].lineno if d != g.entry else f.lineno} (outside the loop)")
+            ctx.ob("C01.R3b", f, "both commit arguments are rebuilt inside the retry iteration", n, not stale,
+                   "a retry that refreshes only the base but re-commits the old new_metadata passes validation and erases every "
+                   "commit that landed in between" + (f"; {sorted(set(stale))}" if stale else ""))
+    if n_sites < 3:
+        raise AnalysisError(f"only {n_sites} MetadataManager.commit call sites found")
+
+
+def r5(ctx: Ctx, rid: str = "C01.R5") -> None:
+    ctx.rule(rid, "applied exactly once: begin() resets per-transaction state; the is_active() guard dominates "
              "commit; every `return True` passes _finish_committed; at most one commit point per loop iteration; "
              "the empty-operations branch reaches no commit point", 7)
     b = ctx.fn("transaction.Transaction.begin")
@@ -310,7 +355,7 @@ def r5(ctx: Ctx) -> None:
                 and any(norm_text(t) == f"self.{attr}" for t in n.ast.targets)
                 and isinstance(n.ast.value, ast.List) and not n.ast.value.elts]
         ok = bool(sets) and all(any(s.id in dom_b[r.id] for s in sets) for r in rets if r.id in dom_b)
-        ctx.ob("C01.R5", b, f"begin() resets self.{attr}", sets[0] if sets else None, ok,
+        ctx.ob(rid, b, f"begin() resets self.{attr}", sets[0] if sets else None, ok,
                "a reused Transaction object never re-applies a previous transaction's state", text=attr)
     f = ctx.fn("transaction.Transaction.commit")
     g = ctx.cfg(f)
@@ -323,15 +368,15 @@ def r5(ctx: Ctx) -> None:
         fl = edge_target(g, gd, "false")
         if fl is not None and g.exit not in reachable_from(g, fl, NORMAL) and all(gd.id in dom[c.id] for c in cps):
             okg = True
-    ctx.ob("C01.R5", f, "is_active() guard dominates every commit point", guards[0] if guards else None, okg,
+    ctx.ob(rid, f, "is_active() guard dominates every commit point", guards[0] if guards else None, okg,
            "an inactive (committed / rolled back) transaction can never reach the commit point again")
     deact = deactivators(ctx)
     fin = [n for n in g.calls() if any(t.name in deact and t.name == "_finish_committed" for t in ctx.eff.callees(f, n))]
     for r in [n for n in g.nodes if n.kind == "return" and is_const(n.ast.value, True)]:  # type: ignore[union-attr]
         ok = any(x.id in dom[r.id] for x in fin)
-        ctx.ob("C01.R5", f, "`return True` is dominated by _finish_committed", r, ok,
+        ctx.ob(rid, f, "`return True` is dominated by _finish_committed", r, ok,
                "a successful commit always deactivates the transaction (it cannot be committed twice)")
-    ctx.ob("C01.R5", ctx.fn("transaction.Transaction._finish_committed"), "_finish_committed deactivates", None,
+    ctx.ob(rid, ctx.fn("transaction.Transaction._finish_committed"), "_finish_committed deactivates", None,
            "_finish_committed" in deact, "sets _is_active = False on every path", nontrivial=True)
     heads = [n.id for n in g.nodes if n.kind == "loop_head"]
     for i, c1 in enumerate(cps):
@@ -344,7 +389,7 @@ def r5(ctx: Ctx) -> None:
                 w = find_path(g, s, [c2.id], avoid=heads, labels=NORMAL) if s != c2.id else [s]
                 if w:
                     break
-            ctx.ob("C01.R5", f, "one commit point per iteration", c1, w is None,
+            ctx.ob(rid, f, "one commit point per iteration", c1, w is None,
                    "no path runs two commit-point calls within one attempt", witness=ctx.path_witness(f, w),
                    text=f"{c1.text[:40]} -> {c2.text[:40]}")
     # empty-operations branch
@@ -359,7 +404,7 @@ def r5(ctx: Ctx) -> None:
             # allowed: none reachable without passing a return -> returns have no NORMAL succ to cps anyway
             ok = w is None
             break
-    ctx.ob("C01.R5", f, "empty transaction reaches no commit point", eb[0] if eb else None, ok or not eb,
+    ctx.ob(rid, f, "empty transaction reaches no commit point", eb[0] if eb else None, ok or not eb,
            "an empty commit creates no snapshot / metadata version")
 
 
